@@ -26,7 +26,7 @@ TRUSTED = [
     "which scalar is the stack pointer, and its width, are taken from falcon's Architecture::stack_pointer() (the tables are C20's subject)",
 ]
 ASSUMPTIONS = [
-    "one width per scalar name (the executor's state is keyed by name); other functions are answered '?'",
+    "one width per scalar name and no SSA versions (the executor's state is keyed by name); other functions are answered '?'",
     "a function without an entry block is outside the domain (there is no execution)",
     "isize is 64 bits",
 ]
